@@ -205,7 +205,7 @@ USAGE = ['missing-input', 'directory-input', 'no-command', 'missing-command', 'n
 
 @st.composite
 def e2e_case(draw):
-    kind = draw(st.sampled_from(['damaged-run', 'damaged-run', 'blackbox-run', 'broken-mutator', 'usage']))
+    kind = draw(st.sampled_from(['damaged-run', 'damaged-run', 'blackbox-run', 'broken-mutator', 'broken-apply', 'usage']))
     base = gen_run.script(1, 4).map(lambda t: refreader.read(t, keep_comments=False))
     trees, ops = draw(gen_sexpr.damaged(base, 3))
     text = model.render_list(trees) + '\n'
@@ -219,6 +219,9 @@ def e2e_case(draw):
     if kind == 'usage':
         c['usage'] = draw(st.sampled_from(USAGE))
         c['after_tests'] = draw(st.integers(2, 40))
+    if kind == 'broken-apply':
+        c['break_apply'] = dict(mod=draw(st.sampled_from([2, 3, 5])), salt=draw(st.integers(0, 99)))
+        c['opts']['jobs'] = draw(st.sampled_from([1, 2, 3]))
     if kind == 'broken-mutator':
         names = ['EraseNode', 'Constants', 'ReplaceByChild', 'SimplifySymbolNames', 'BVNormalizeConstants',
                  'ArithmeticSimplifyConstant', 'LetSubstitution', 'EliminateVariable', 'MergeWithChildren']
@@ -271,6 +274,22 @@ def run_e2e(case, acc, wd):
         if ok and r.exit == 0 and not r.completed:
             acc.violation('status/zero-without-completion', f'exit status 0 but no completion message: {r.stderr[-300:]!r}', case)
         return len(r.log) >= 5, classes
+    if kind == 'broken-apply':
+        # a failure while a candidate is built / checked (in the workers) costs that candidate only
+        r = e2e.run_ddsmt(wd, case['text'], case['spec'], case['opts'], mode='launcher',
+                          plan=dict(stop_on_repeat=True, max_accepts=150, break_apply=case['break_apply']), wall_limit=120)
+        classes.append(f'strategy-{case["opts"]["strategy"]}')
+        if r.timed_out or r.after is None:
+            acc.skip('e2e wall limit')
+            return False, classes
+        injected = 'injected apply failure' in r.stderr
+        if injected:
+            classes.append('injected-apply-failure-hit')
+        ok = no_traceback(r, acc, case, 'injected-apply-failure-not-contained' if injected else case['opts']['strategy'])
+        cut = r.after.get('repeat') or r.after.get('too_many_accepts')
+        if ok and not cut and r.after['rc'] != 0:
+            acc.violation('status/injected-apply-failure-nonzero', f'status {r.after["rc"]}: {r.stderr[-300:]!r}', case)
+        return injected, classes
     if kind == 'broken-mutator':
         r = e2e.run_ddsmt(wd, case['text'], case['spec'], case['opts'], mode='launcher',
                           plan=dict(stop_on_repeat=True, max_accepts=150, break_mutator=case['break']), wall_limit=120)
@@ -424,7 +443,7 @@ def fuzz(ctx, acc, dd, runs):
 
 
 def replay(case, acc, ctx):
-    if case.get('kind') in ('damaged-run', 'blackbox-run', 'broken-mutator', 'usage'):
+    if case.get('kind') in ('damaged-run', 'blackbox-run', 'broken-mutator', 'broken-apply', 'usage'):
         run_e2e(case, acc, os.path.join(ctx.workdir, 'replay'))
     else:
         guard.limit_memory(4)
